@@ -68,7 +68,8 @@ def gen_imports(rng):
             elif form == "explicit":
                 m["body"].append("from %s import %s\n" % (r[1], t["fixture"]))
             elif r[0] == "abs":
-                m["body"].append('pytest_plugins = ["%s"]\n' % r[1])
+                m["body"].append(rng.choice(['pytest_plugins = ["%s"]\n', 'pytest_plugins = ("%s",)\n', 'pytest_plugins: list = ["%s"]\n',
+                                            'pytest_plugins = "%s"\n', 'pytest_plugins = ["%s"]\npytest_plugins: list\n']) % r[1])
     # conftests import some modules
     confs = {}
     for d in dirs[:4]:
@@ -86,11 +87,17 @@ def gen_imports(rng):
                 elif r[0] == "abs":
                     if form == "plugins2":
                         lines.append('pytest_plugins = ["nonexistent_mod"]\n')   # overwritten below: last assignment wins
-                    lines.append('pytest_plugins = ["%s"]\n' % r[1])
+                    lines.append(rng.choice(['pytest_plugins = ["%s"]\n', 'pytest_plugins = ("%s", "no_such_mod")\n',
+                                             'pytest_plugins: tuple = ("%s",)\n', 'pytest_plugins = "%s"\n']) % r[1])
             confs[(d + "/" if d else "") + "conftest.py"] = "".join(lines)
     for m in mods:
         files[m["path"]] = "".join(m["body"])
     files.update(confs)
+    for m in mods:
+        if m["path"].endswith("__init__.py") and rng.random() < 0.5:
+            pd = m["path"][:-len("__init__.py")]
+            files[pd + "conftest.py"] = "from . import %s\n" % m["fixture"]
+            files[pd + "test_inpkg.py"] = "def test_p(%s):\n    pass\n" % m["fixture"]
     tests = []
     for d in dirs:
         p = (d + "/" if d else "") + "test_here.py"
@@ -181,7 +188,13 @@ def gen_venv(rng):
         if hops:
             last = hops[-1][1]
             files["%s/%s/%s.py" % (src, modname, last)] = FX.format("%s_%s" % (fx, last))
-        files["%s/%s/plugin.py" % (src, modname)] = head + FX.format(fx)
+        shared = ""
+        if where == "workspace" and rng.random() < 0.5:
+            # the plugin re-exports the fixtures of a conftest.py of its own package: that file is indexed by
+            # the workspace walk first and must be re-analysed as plugin code afterwards
+            files["%s/%s/conftest.py" % (src, modname)] = FX.format("%s_shared" % fx)
+            shared = "from .conftest import *\n"
+        files["%s/%s/plugin.py" % (src, modname)] = shared + head + FX.format(fx)
         meta = sp + "/%s-0.1.dist-info" % pkg
         dj = rng.choice(['{"url": "file:///x", "dir_info": {"editable": true}}', '{"dir_info": {"editable": false}, "url": "u"}',
                          '{"url": "file:///x"}', '{"url": ', '{"dir_info": {"editable": true}, "url": "file:///y"}'])
@@ -195,6 +208,9 @@ def gen_venv(rng):
         found = editable and pth != "unrelated.pth"
         klass = ("third" if where == "external" else "plugin") if found else "absent"
         expect.append((fx, klass))
+        if shared:
+            # found or not, the conftest is a workspace file; it is plugin code only when the plugin is loaded
+            expect.append(("%s_shared" % fx, "plugin" if found else "workspace"))
         for (this, nxt, stmt) in hops:
             # everything the entry module pulls in, however many hops away, is plugin code too
             expect.append(("%s_%s" % (fx, nxt), klass))
@@ -234,6 +250,13 @@ def run(tier, seed):
         else:
             files, expect, vname = gen_venv(rng)
             files["conftest.py"] = FX.format("project_fx")
+            installed = sorted({p.split("site-packages/")[1].split("/")[0].replace(".py", "") for p in files
+                                if "site-packages/pytest_p" in p and "-info" not in p})
+            # only modules that are discovered anyway (an import would legitimately pull an otherwise unlisted one in)
+            absent = {fx_ for (fx_, k_) in expect if k_ == "absent"}
+            installed = [m_ for m_ in installed if "plug_fx" + m_.replace("pytest_p", "") not in absent]
+            if installed and r.rng.random() < 0.5:
+                files["conftest.py"] += r.rng.choice(['pytest_plugins = ["%s"]\n', "from %s import *\n"]) % r.rng.choice(installed)
             files["test_ws.py"] = "def test_w(%s):\n    pass\n" % ", ".join(e[0] for e in expect[:4] or [("project_fx", "")])
             name = "v%d" % i
             cases.case(name, {"kind": "venv"})
@@ -281,6 +304,11 @@ def run(tier, seed):
                 msg = f"venv case {name}: plugin fixture {fx} ({klass}) is not discovered"
                 v.violation(name, msg, f"# {msg}\n" + cases.replay_text(name)); continue
             tp, pl, path = got[0]
+            if klass == "workspace":
+                if tp or pl:
+                    msg = f"venv case {name}: fixture {fx} from {path} is a plain workspace fixture (its plugin is not loaded) but is classified third_party={tp} plugin={pl}"
+                    v.violation(name, msg, f"# {msg}\n" + cases.replay_text(name))
+                continue
             want_tp = (klass == "third")
             if tp != want_tp or (not want_tp and not pl):
                 msg = f"venv case {name}: fixture {fx} from {path} is classified third_party={tp} plugin={pl}, expected {'third-party' if want_tp else 'workspace plugin'} (plugin=True)"
